@@ -46,6 +46,8 @@ type Ctx struct {
 	// List of internal byte writers to process include expressions.
 	w  []bytes.Buffer
 	wl int
+	// Current depth of nested includes.
+	incD int
 
 	// List of internal KV pairs.
 	kv  []KV
@@ -309,6 +311,7 @@ func (ctx *Ctx) Reset() {
 		ctx.w[i].Reset()
 	}
 	ctx.wl = 0
+	ctx.incD = 0
 
 	ctx.kvl = 0
 
